@@ -177,7 +177,7 @@ Record world := mk_world {
   occ : list (string * nat);
   trace : list event;
   wintr : option nat;            (* Waiting._interruption: delivered to the waiting future, not yet seen by execute() *)
-  wrecalled : option nat         (* Waiting._recalled: an interruption execute() has to ignore *)
+  wrecalled : list nat           (* Waiting._recalled: interruptions execute() has to ignore *)
 }.
 
 #[export] Instance eta_world : Settable _ := settable! mk_world
@@ -381,7 +381,7 @@ Section Reentrant.
     | Some s' => ret (Some s')
     | None =>
         w1 <- get ;;
-        put (w1 <| st := Some ns |> <| wintr := None |> <| wrecalled := None |>) ;;;   (* a new state object *)
+        put (w1 <| st := Some ns |> <| wintr := None |> <| wrecalled := [] |>) ;;;   (* a new state object *)
         emit (EvEntered (cur_label w) (label_of ns)) ;;;
         w2 <- get ;;
         when (hooks_alive w2) (on_entered w) ;;;
@@ -469,7 +469,7 @@ Section Reentrant.
     match wintr w with
     | Some i =>
         if Nat.eqb i iid then
-          modify (fun w => w <| wrecalled := Some iid |>) ;;;
+          modify (fun w => w <| wrecalled := wrecalled w ++ [iid] |>) ;;;
           match st w with
           | Some (SWaiting fn msg data wid (WfDone (WkIntr j))) =>
               if Nat.eqb j iid then
@@ -762,11 +762,9 @@ Definition after_waiting_once (fn : option string) (awaited : nat) (wk : wake) (
              modify (fun w => w <| st := Some (SWaiting f m d wid WfPending) |>)
            else ret tt) ;;;
           w' <- get ;;
-          match wrecalled w' with
-          | Some r => if Nat.eqb r iid then modify (fun w => w <| wrecalled := None |>) ;;; again (Some iid)
-                      else ret (XoInterrupted iid)
-          | None => ret (XoInterrupted iid)
-          end
+          if existsb (Nat.eqb iid) (wrecalled w')
+          then modify (fun w => w <| wrecalled := filter (fun r => negb (Nat.eqb iid r)) (wrecalled w) |>) ;;; again (Some iid)
+          else ret (XoInterrupted iid)
       | _ => ret (XoInterrupted iid)
       end
   | WkExn e => ret (XoRaised e)
@@ -947,7 +945,7 @@ Definition run_entry (r : rentry) : LM unit :=
 (* ------------------------------------------------------------------ construction *)
 Definition init_world (c : config) : world :=
   mk_world c None false None None None [] 0 None None None PfPending true false false [0] true false false
-           [] (cf_ospec c) PcNotStarted [] [] [] [] None None.
+           [] (cf_ospec c) PcNotStarted [] [] [] [] None [].
 
 (* StateMachineMeta.__call__: transition_to(create_initial_state()); init().  The harness then creates
    the stepping task: its first step is the first ready callback. *)
